@@ -317,6 +317,32 @@ type Sim struct {
 	realStart time.Time
 	vnow      int64
 	Dead      bool // a step panicked: the session may hold its mutex, nothing more is run
+	// one receive buffer for every frame of the history (a real read loop reuses its buffer): the frame is
+	// copied into it and Parse sees buf[:n]; the buffer is overwritten before the next frame and at the end,
+	// so anything the tables retained by reference instead of by copy shows up in the next dump
+	buf     [2048]byte
+	argbuf  [16]byte // MAC arguments of API calls live here and are overwritten after the call
+	scribbleN byte
+}
+
+// Scribble overwrites the receive buffer (the caller's buffer is reused for the next read).
+func (sm *Sim) Scribble() {
+	sm.scribbleN++
+	for i := range sm.buf {
+		sm.buf[i] = 0xa5 ^ sm.scribbleN ^ byte(i)
+	}
+}
+
+// macArg places a MAC argument in caller-owned scratch memory that is overwritten after the call.
+func (sm *Sim) macArg(tok string) net.HardwareAddr {
+	copy(sm.argbuf[:6], ParseMac(tok))
+	return net.HardwareAddr(sm.argbuf[:6])
+}
+
+func (sm *Sim) argDone() {
+	for i := range sm.argbuf {
+		sm.argbuf[i] = 0x5a
+	}
 }
 
 func NewSim(cfg Cfg, t0 int64) *Sim {
@@ -414,7 +440,9 @@ func (sm *Sim) Apply(tok string) (out string) {
 		if got := Decode(frame).Tok(); got != strings.Join(f[1:6], ",") {
 			return "summary-mismatch:" + got
 		}
-		fr, _ := sm.S.Parse(frame)
+		sm.Scribble() // the previous frame's bytes are gone: the loop reads into the same buffer
+		n := copy(sm.buf[:], frame)
+		fr, _ := sm.S.Parse(sm.buf[:n])
 		sm.last, sm.haveLast = fr, true
 		sm.settle()
 		h := "nil"
@@ -435,7 +463,8 @@ func (sm *Sim) Apply(tok string) (out string) {
 		return "ok"
 	case "U":
 		sm.vnow = atoi(f[4])
-		err := sm.S.DHCPv4Update(ParseMac(f[1]), ParseIP(f[2]), packet.NameEntry{Type: "dhcp4", Name: nameStr(f[3])})
+		err := sm.S.DHCPv4Update(sm.macArg(f[1]), ParseIP(f[2]), packet.NameEntry{Type: "dhcp4", Name: nameStr(f[3])})
+		sm.argDone()
 		sm.settle()
 		if err == packet.ErrInvalidIP {
 			return "e:InvalidIP"
@@ -444,11 +473,13 @@ func (sm *Sim) Apply(tok string) (out string) {
 		}
 		return "ok"
 	case "O":
-		sm.S.SetDHCPv4IPOffer(ParseMac(f[1]), ParseIP(f[2]), packet.NameEntry{Type: "dhcp4", Name: nameStr(f[3])})
+		sm.S.SetDHCPv4IPOffer(sm.macArg(f[1]), ParseIP(f[2]), packet.NameEntry{Type: "dhcp4", Name: nameStr(f[3])})
+		sm.argDone()
 		sm.settle()
 		return "ok"
 	case "C":
-		err := sm.S.Capture(ParseMac(f[1]))
+		err := sm.S.Capture(sm.macArg(f[1]))
+		sm.argDone()
 		sm.settle()
 		if err == packet.ErrIsRouter {
 			return "e:IsRouter"
@@ -457,7 +488,9 @@ func (sm *Sim) Apply(tok string) (out string) {
 		}
 		return "ok"
 	case "L":
-		if err := sm.S.Release(ParseMac(f[1])); err != nil {
+		err := sm.S.Release(sm.macArg(f[1]))
+		sm.argDone()
+		if err != nil {
 			return "e:other"
 		}
 		sm.settle()
@@ -531,7 +564,7 @@ func (sm *Sim) DumpTables() string {
 		if h.MACEntry != nil {
 			mac = MacTok(h.MACEntry.MAC)
 		}
-		hs = append(hs, IPTok(k)+"/"+IPTok(h.Addr.IP)+"/"+mac+"/"+b01(h.Online)+b01(h.Dirty())+"/"+vsec(h.LastSeen)+"/"+hostNames(h))
+		hs = append(hs, IPTok(k)+"/"+IPTok(h.Addr.IP)+"/"+mac+"/"+MacTok(h.Addr.MAC)+"/"+b01(h.Online)+b01(h.Dirty())+"/"+vsec(h.LastSeen)+"/"+hostNames(h))
 	}
 	var ms []string
 	for _, e := range sm.S.MACTable.Table {
@@ -648,7 +681,7 @@ func (sm *Sim) Views(ips []netip.Addr, macs []net.HardwareAddr) string {
 		return strings.Join(s, "+")
 	}
 	var f, a, b []string
-	e := ""
+	e, x := "", ""
 	for _, k := range ips {
 		if h := sm.S.FindIP(k); h != nil {
 			f = append(f, tr(h))
@@ -657,12 +690,18 @@ func (sm *Sim) Views(ips []netip.Addr, macs []net.HardwareAddr) string {
 		}
 	}
 	for _, m := range macs {
-		a = append(a, sortedIPs(sm.S.IPAddrs(m)))
+		l := sm.S.IPAddrs(m)
+		if l == nil {
+			x += "n"
+		} else {
+			x += "e"
+		}
+		a = append(a, sortedIPs(l))
 		b = append(b, sortedIPs(sm.S.FindByMAC(m)))
 		ent := sm.S.FindMACEntry(m)
 		e += b01(ent != nil && len(ent.HostList) > 0)
 	}
-	return "G:" + sm.Triples() + "|F:" + strings.Join(f, ",") + "|A:" + strings.Join(a, ",") + "|B:" + strings.Join(b, ",") + "|E:" + e
+	return "G:" + sm.Triples() + "|F:" + strings.Join(f, ",") + "|A:" + strings.Join(a, ",") + "|B:" + strings.Join(b, ",") + "|E:" + e + "|X:" + x
 }
 
 // Candidates collects the distinct addresses and MACs mentioned in a configuration and an op list.
@@ -932,13 +971,13 @@ func (sm *Sim) DrainShown(sorted bool, pairs bool) string {
 	return strings.Join(s, ",")
 }
 
-// Exhaustive enumerates every history of exactly `depth` letters over a 14-letter alphabet (frames of two
+// Exhaustive enumerates every history of exactly `depth` letters over a 17-letter alphabet (frames of two
 // clients on two LAN addresses incl. a collision, ARP, IPv6 LLA, router GUA, a DHCP frame without host,
 // DHCPv4Update, two purge distances, Notify, Capture, SetOffer, a name update). Virtual time advances by one
 // second per letter; the purge letters jump past the offline / purge deadline.
 func Exhaustive(u Universe, depth int, discipline bool, f func(ops []string)) {
 	c1, c2, rt := u.MACs[2], u.MACs[3], u.MACs[1]
-	ipA, ipB := u.IP4s[2], u.IP4s[3]
+	ipA, ipB, ipC := u.IP4s[2], u.IP4s[3], u.IP4s[4]
 	type letter func(now *int64) []string
 	rx := func(src net.HardwareAddr, class string, ip netip.Addr, am net.HardwareAddr, variant int) letter {
 		return func(now *int64) []string {
@@ -953,11 +992,13 @@ func Exhaustive(u Universe, depth int, discipline bool, f func(ops []string)) {
 	alphabet := []letter{
 		rx(c1, "4", ipA, nil, 0), rx(c1, "4", ipB, nil, 1), rx(c2, "4", ipA, nil, 2), rx(c1, "a", ipA, c1, 0),
 		rx(c1, "6", u.IP6s[0], nil, 0), rx(rt, "6", u.IP6s[2], nil, 2), rx(c1, "4", u.IP4s[6], nil, 3),
+		rx(c2, "4", ipB, nil, 0), rx(c1, "4", ipC, nil, 0),
+		func(now *int64) []string { *now++; return []string{fmt.Sprintf("U,%s,%s,2,%d", MacTok(c2), IPTok(ipA), *now)} },
 		func(now *int64) []string { *now++; return []string{fmt.Sprintf("U,%s,%s,1,%d", MacTok(c1), IPTok(ipB), *now)} },
 		func(now *int64) []string { *now += 301; return []string{fmt.Sprintf("P,%d", *now)} },
 		func(now *int64) []string { *now += 3661; return []string{fmt.Sprintf("P,%d", *now)} },
 		func(now *int64) []string { return []string{"C," + MacTok(c1)} },
-		func(now *int64) []string { return []string{"O," + MacTok(c1) + "," + IPTok(ipA) + ",2"} },
+		func(now *int64) []string { return []string{"O," + MacTok(c1) + "," + IPTok(ipC) + ",2"} },
 		func(now *int64) []string { return []string{"M,1," + IPTok(ipA) + ",2"} },
 	}
 	if !discipline {
@@ -984,4 +1025,116 @@ func Exhaustive(u Universe, depth int, discipline bool, f func(ops []string)) {
 			return
 		}
 	}
+}
+
+
+// ConflictHistory draws a history biased towards address conflicts between MACs: two or three client MACs
+// compete for three LAN IPv4 addresses and keep IPv6 link-local addresses beside them, so that a MAC often
+// owns several hosts (IPv4 + LLA, IPv4 + an older offline IPv4), loses one of them to another MAC (re-binding,
+// or purge and later capture by the other MAC) and is then seen on a new IPv4 (frame, ARP or DHCPv4Update).
+func (g *Gen) ConflictHistory(n int) []string {
+	g.now = 0
+	u := g.U
+	macs := []net.HardwareAddr{u.MACs[2], u.MACs[3], u.MACs[4]}
+	if g.Rng.Chance(50) {
+		macs = macs[:2]
+	}
+	if g.Rng.Chance(15) {
+		macs = append(macs, u.MACs[1]) // the router takes part
+	}
+	ip4 := []netip.Addr{u.IP4s[2], u.IP4s[3], u.IP4s[4]}
+	lla := []netip.Addr{u.IP6s[0], u.IP6s[1]}
+	step := func() int64 {
+		g.now += int64(g.Rng.Pick(1, 1, 1, 5, 60, 200))
+		return g.now
+	}
+	var ops []string
+	frame := func(tok string) {
+		ops = append(ops, tok)
+		if g.Discipline || g.Rng.Chance(70) {
+			ops = append(ops, "N")
+		}
+	}
+	for len(ops) < n {
+		m := macs[g.Rng.Intn(len(macs))]
+		r := g.Rng.Intn(100)
+		switch {
+		case r < 40:
+			frame(RxTok(m, "4", ip4[g.Rng.Intn(len(ip4))], nil, g.Rng.Pick(0, 1, 2, 3), step()))
+		case r < 52:
+			am := m
+			if g.Rng.Chance(25) {
+				am = macs[g.Rng.Intn(len(macs))]
+			}
+			frame(RxTok(m, "a", ip4[g.Rng.Intn(len(ip4))], am, g.Rng.Intn(2), step()))
+		case r < 64:
+			frame(RxTok(m, "6", lla[g.Rng.Intn(len(lla))], nil, g.Rng.Pick(0, 2), step()))
+		case r < 76:
+			ops = append(ops, fmt.Sprintf("U,%s,%s,%s,%d", MacTok(m), IPTok(ip4[g.Rng.Intn(len(ip4))]), u.Names[g.Rng.Intn(len(u.Names))], step()))
+		case r < 80:
+			ops = append(ops, fmt.Sprintf("O,%s,%s,%s", MacTok(m), IPTok(ip4[g.Rng.Intn(len(ip4))]), u.Names[g.Rng.Intn(len(u.Names))]))
+		case r < 84:
+			frame(RxTok(m, "4", u.IP4s[6], nil, 3, step())) // DHCP frame without host
+		case r < 88:
+			ops = append(ops, fmt.Sprintf("M,%d,%s,%s", g.Rng.Intn(5), IPTok(ip4[g.Rng.Intn(len(ip4))]), u.Names[g.Rng.Intn(len(u.Names))]))
+		case r < 95:
+			g.now += int64(g.Rng.Pick(290, 301, 301, 400))
+			ops = append(ops, fmt.Sprintf("P,%d", g.now))
+		default:
+			g.now += int64(g.Rng.Pick(3661, 4000))
+			ops = append(ops, fmt.Sprintf("P,%d", g.now))
+		}
+	}
+	return ops
+}
+
+// OfferDeletionHistory: SetDHCPv4IPOffer(mac, Y) while mac's ONLY host is X != Y, then that host is deleted,
+// by ageing and purge or by re-binding of X from another MAC, followed by further traffic of both MACs.
+func (g *Gen) OfferDeletionHistory() []string {
+	g.now = 0
+	u := g.U
+	m1, m2 := u.MACs[2+g.Rng.Intn(2)], u.MACs[4]
+	x, y, z := u.IP4s[2], u.IP4s[3], u.IP4s[4]
+	if g.Rng.Chance(30) {
+		x = u.IP6s[0] // the only host is an IPv6 link-local address
+	}
+	t := func(d int64) int64 { g.now += d; return g.now }
+	cls := "4"
+	if !x.Is4() {
+		cls = "6"
+	}
+	var ops []string
+	offer := fmt.Sprintf("O,%s,%s,%s", MacTok(m1), IPTok(y), u.Names[g.Rng.Intn(len(u.Names))])
+	if g.Rng.Chance(50) {
+		ops = append(ops, offer, RxTok(m1, cls, x, nil, 0, t(1)), "N")
+	} else {
+		ops = append(ops, RxTok(m1, cls, x, nil, 0, t(1)), "N", offer)
+	}
+	if g.Rng.Chance(30) {
+		ops = append(ops, "C,"+MacTok(m1))
+	}
+	switch g.Rng.Intn(3) {
+	case 0: // ageing, then purge
+		ops = append(ops, fmt.Sprintf("P,%d", t(301)), fmt.Sprintf("P,%d", t(3661)))
+	case 1: // re-binding by another MAC
+		ops = append(ops, RxTok(m2, cls, x, nil, 1, t(2)), "N")
+	default: // re-binding through DHCPv4Update of another MAC
+		ops = append(ops, fmt.Sprintf("U,%s,%s,1,%d", MacTok(m2), IPTok(x), t(2)))
+	}
+	// afterwards: the DHCP path, the offered address, a new address of the first MAC
+	for i := 0; i < 1+g.Rng.Intn(4); i++ {
+		switch g.Rng.Intn(5) {
+		case 0:
+			ops = append(ops, RxTok(m1, "4", u.IP4s[6], nil, 3, t(1)), "N")
+		case 1:
+			ops = append(ops, RxTok(m1, "4", y, nil, 0, t(1)), "N")
+		case 2:
+			ops = append(ops, fmt.Sprintf("U,%s,%s,2,%d", MacTok(m1), IPTok(z), t(1)))
+		case 3:
+			ops = append(ops, RxTok(m2, "4", y, nil, 0, t(1)), "N")
+		case 4:
+			ops = append(ops, fmt.Sprintf("P,%d", t(301)))
+		}
+	}
+	return ops
 }
